@@ -175,10 +175,15 @@ def check_parser_error(text, main=None):
 # ------------------------------------------------------------------ (c) DEBUG and (d) pretty
 
 def quiet(fn, *a, **k):
-    buf = io.StringIO()
+    # what DEBUG prints goes to an ordinary strict UTF-8 text stream (a pipe, a log file), not to a StringIO that would
+    # swallow anything
+    raw = io.BytesIO()
+    buf = io.TextIOWrapper(raw, encoding='utf-8', errors='strict', write_through=True)
     with contextlib.redirect_stdout(buf), warnings.catch_warnings():
         warnings.simplefilter('ignore')
-        return fn(*a, **k), buf.getvalue()
+        out = fn(*a, **k)
+        buf.flush()
+        return out, raw.getvalue().decode('utf-8')
 
 
 class StepBudget(Exception):
@@ -363,6 +368,10 @@ def shard(ctx):
                 else:
                     text = ':is(' + long_attr + ', p):not(' + long_attr + ')'
                 col.classify('long-attribute-value')
+            if ch.p(0.08):
+                # an unpaired surrogate in a name (it is an ordinary non-ASCII identifier character to the grammar)
+                text += ch.pick((', .a\ud800', ' > p.\udc00x', ', [class="a\ud800"]'))
+                col.classify('lone-surrogate-token')
             fails, info = check_debug_and_pretty(text)
             col.count(3)
             col.classify('debug-pretty')
